@@ -13,7 +13,7 @@ ASSUMPTIONS = ["product rule with joint and marginal evaluated by numpy from (mu
 
 
 def _pool(tier):
-    base = [(2, 1, 1), (3, 2, 2), (4, 3, 1), (2, 2, 3), (5, 1, 2), (3, 4, 2), (6, 2, 1), (4, 1, 3), (7, 1, 1), (17, 1, 1), (24, 2, 2), (33, 1, 1)]
+    base = [(2, 1, 1), (3, 2, 2), (4, 3, 1), (2, 2, 3), (5, 1, 2), (3, 4, 2), (6, 2, 1), (4, 1, 3), (7, 1, 1), (17, 1, 1), (24, 2, 2), (33, 1, 1), (3, 2, 20), (2, 18, 1)]
     if tier == "thorough":
         base += [(5, 3, 2), (6, 1, 1), (2, 4, 2), (3, 1, 1), (4, 4, 2), (5, 2, 3), (3, 3, 3), (6, 3, 2), (7, 2, 1), (8, 1, 2)]
     return base
@@ -30,12 +30,15 @@ def _strategy(shapes):
         rest = [d for d in range(D) if d not in dim_b]
         dim_a = list(draw(st.permutations(rest))) if variant == "explicit" else sorted(rest)
         diag = draw(st.sampled_from([False, False, True]))
-        return {"D": D, "R": R, "N": N, "dim_b": dim_b, "dim_a": dim_a, "variant": variant, "diag": diag,
+        case = {"D": D, "R": R, "N": N, "dim_b": dim_b, "dim_a": dim_a, "variant": variant, "diag": diag,
                 "p": draw(gen.measure_params("diag_pdf" if diag else "pdf", R, D, draw(st.sampled_from([10.0, 100.0])), extreme="wide" if D >= 17 else True)),
                 "upd": draw(gen.maybe_update("diag_pdf" if diag else "pdf", R, D)),
                 "x": draw(gen.arr((N, D), -3, 3)),
                 # a second, different conditioning set queried on the same object afterwards
                 "k2": draw(st.integers(1, D - 1)), "perm2": list(draw(st.permutations(list(range(D)))))}
+        from .C05 import _far
+        _far(draw, case, D)
+        return case
     return s()
 
 
@@ -81,9 +84,11 @@ def _run(case):
         return fails
     # evaluation points in the density's own units: component 0's mean + z standard deviations
     x = mu[0] + np.asarray(case["x"], float) * np.sqrt(np.einsum("ii->i", Sig[0]))
-    if not _product_rule(fails, c, tag, x, a, bb, mu, Sig, R, N):
+    if case.get("far"):
+        pass  # far-mean regime: parameters only (below); the log-density comparisons are not judged
+    elif not _product_rule(fails, c, tag, x, a, bb, mu, Sig, R, N):
         return fails
-    if case.get("perm2"):
+    if case.get("perm2") and not case.get("far"):
         b2 = list(case["perm2"][:case["k2"]])
         a2 = sorted(d for d in range(D) if d not in b2)
         ok2, c2 = lib(fails, "second_query", lambda: p.condition_on(libx.IDX(b2)))
@@ -123,7 +128,7 @@ def _nontrivial(case):
 def _labels(case):
     b = case["dim_b"]
     return [f"variant={case['variant']}", "b_unsorted" if b != sorted(b) else "b_sorted", f"|b|={len(b)}", f"diag={case['diag']}",
-            "a_unsorted" if case["dim_a"] != sorted(case["dim_a"]) else "a_sorted", "D>=17" if case["D"] >= 17 else "D<=8"]
+            "a_unsorted" if case["dim_a"] != sorted(case["dim_a"]) else "a_sorted", "D>=17" if case["D"] >= 17 else "D<=8", f"far_mean={case.get('far', 0.0):g}"]
 
 
 SUBS = [
